@@ -204,6 +204,17 @@ func genProbes(r *Rng, ops []Op, n int) []Probe {
 		}
 	}
 	set[lo-7200*1000000], set[hi+7200*1000000] = true, true
+	// directed: listings at and after the timestamp of every future-dated transaction (its first history revision is dated
+	// there, after the revisions of the metadata writes that followed it)
+	var directed []Probe
+	for _, o := range ops {
+		if o.Kind == "create" && o.TS != nil && *o.TS > o.Now {
+			for _, d := range []int64{0, 1, 7200 * 1000000} {
+				t := *o.TS + d
+				directed = append(directed, Probe{Kind: "txs", PIT: &t})
+			}
+		}
+	}
 	var inst []int64
 	for t := range set {
 		inst = append(inst, t)
@@ -246,7 +257,10 @@ func genProbes(r *Rng, ops []Op, n int) []Probe {
 			out = append(out, Probe{Kind: "txs", PIT: pit})
 		}
 	}
-	return out
+	if len(directed) > 6 {
+		directed = directed[:6]
+	}
+	return append(out, directed...)
 }
 
 func readsCaseSx(f Feat, ops []Op, probes []Probe) string {
@@ -295,6 +309,9 @@ func cmdReads(args []string) int {
 	out := NewOut(f.Out)
 	defer out.Close()
 	prof := HistProfile{MaxOps: 12, Backdate: true}
+	if strings.Contains(f.Extra["monitors"], "C17") {
+		prof.FutureMeta = true
+	}
 	feats := []Feat{allOn, allOn, {true, true, false, false, true}, {true, false, true, true, false}, {false, false, true, false, true}, {true, true, true, false, false}, {true, true, false, true, false}}
 	nprobes := 24
 	mon := f.Extra["monitors"]
